@@ -383,12 +383,12 @@ Example C01_compile_correct_f1_instance_ok :
 Proof. vm_compute. repeat split; reflexivity. Qed.
 
 (* ==== fragment F2a: F1 plus conditionals ====
-   statements of main:  SetGlobalVar g e | Comment | IfTrue e s | IfFalse e s | IfElse e s s, with e an
-   expression of F1 and s again such a statement (C01SimDefs2.in_f2).  The forward jumps of the
+   statements of main:  SetGlobalVar g e | Comment | IfTrue e s | IfFalse e s | IfElse e s s |
+   Composite [s; ...], with e an expression of F1 and s again such statements (C01SimDefs2.in_f2).  The forward jumps of the
    compiled conditionals carry absolute byte addresses written by back-patching; the extra hypothesis
    is that the bytecode is shorter than 2^31 bytes (a jump operand is an i32; the debug build of the VM
    asserts it is not negative).  A run dispatches at most every instruction of main once, so the same
-   budget bound as in F1 suffices (needed_f2).  Not covered: Composite bodies, locals, loops, calls. *)
+   budget bound as in F1 suffices (needed_f2).  Not covered: locals, loops, calls. *)
 From Cao Require C01SimDefs2 C01SimF2.
 
 Theorem C01_compile_correct_f2 :
@@ -467,7 +467,8 @@ Proof. exact C01SimF3.compile_correct_f3. Qed.
 Print Assumptions C01_compile_correct_f3.
 
 (* an instance: a loop that triples x until it passes 1000, a loop whose body is a conditional, a loop
-   that is never entered; 119 dispatches are needed, so budget 120 is the smallest that works *)
+   that is never entered; a loop with a Composite body;
+   235 dispatches are needed, so budget 236 is the smallest that works *)
 Definition f3_example : module :=
   prog [("main", fn [] [CSetGlobalVar (s "x") (CScalarInt 1);
                         CBin BWhile (CBin BLess (CReadVar (s "x")) (CScalarInt 1000))
@@ -477,7 +478,14 @@ Definition f3_example : module :=
                           (CTri TIfElse (CBin BLess (CReadVar (s "y")) (CScalarInt 4))
                              (CSetGlobalVar (s "y") (CBin BAdd (CReadVar (s "y")) (CScalarInt 2)))
                              (CSetGlobalVar (s "y") (CBin BAdd (CReadVar (s "y")) (CScalarInt 3))));
-                        CBin BWhile CScalarNil (CSetGlobalVar (s "never") (CScalarInt 1))])].
+                        CBin BWhile CScalarNil (CSetGlobalVar (s "never") (CScalarInt 1));
+                        (* the loop of simple_while_test, counting down from 10 and summing *)
+                        CSetGlobalVar (s "i") (CScalarInt 10);
+                        CSetGlobalVar (s "sum") (CScalarInt 0);
+                        CBin BWhile (CReadVar (s "i"))
+                          (CComposite (s "body")
+                             [CSetGlobalVar (s "sum") (CBin BAdd (CReadVar (s "sum")) (CReadVar (s "i")));
+                              CSetGlobalVar (s "i") (CBin BSub (CReadVar (s "i")) (CScalarInt 1))])])].
 Example C01_compile_correct_f3_instance :
   match Compiler.compile f3_example CompilerProofs.default_options, eval_program 300 f3_example [] with
   | Compiler.COk B, PObs o =>
@@ -486,15 +494,15 @@ Example C01_compile_correct_f3_instance :
       C01SimDefs3.depth_ok3 (C01SimDefs.main_cards f3_example) = true /\
       (N.of_nat (List.length (Compiler.p_ids B)) <? Bits.two32)%N = true /\
       (N.of_nat (List.length (Compiler.p_bytecode B)) <? 2147483648)%N = true /\
-      (ob_kind o, ob_globals o) = (KOk, [(s "x", TrInt 2187); (s "y", TrInt 7)]) /\
+      (ob_kind o, ob_globals o) = (KOk, [(s "x", TrInt 2187); (s "y", TrInt 7); (s "i", TrInt 0); (s "sum", TrInt 55)]) /\
       (let r := Vm.run no_floats Vm.Debug 400 (C15Link.to_vm B) Vm.fresh_state in
        C01SimDefs.vm_kind (fst r) = Some (ob_kind o) /\
        map (fun n => option_map C01SimDefs.vm_tree (Vm.read_var_by_name (C15Link.to_vm B) (snd r) n))
-           [s "x"; s "y"; s "never"]
-       = map (fun n => assoc n (ob_globals o)) [s "x"; s "y"; s "never"]) /\
+           [s "x"; s "y"; s "never"; s "i"; s "sum"]
+       = map (fun n => assoc n (ob_globals o)) [s "x"; s "y"; s "never"; s "i"; s "sum"]) /\
       (* the budget matters: one unit too few is a Timeout *)
-      fst (Vm.run no_floats Vm.Debug 120 (C15Link.to_vm B) Vm.fresh_state) = Vm.OOk /\
-      C01SimDefs.vm_kind (fst (Vm.run no_floats Vm.Debug 119 (C15Link.to_vm B) Vm.fresh_state)) = Some (KErr (EOther 9))
+      fst (Vm.run no_floats Vm.Debug 236 (C15Link.to_vm B) Vm.fresh_state) = Vm.OOk /\
+      C01SimDefs.vm_kind (fst (Vm.run no_floats Vm.Debug 235 (C15Link.to_vm B) Vm.fresh_state)) = Some (KErr (EOther 9))
   | _, _ => False
   end.
 Proof. vm_compute. repeat split; reflexivity. Qed.
